@@ -45,12 +45,7 @@ def _analysis(r, key, msg, where=None):
 
 
 def _where(W, R, d):
-    parts = []
-    if W is not None:
-        parts.append("%s%s" % (W.where.rsplit(":", 1)[0] + ":" + str(d.wline) if d.wline else W.where, ""))
-    if R is not None:
-        parts.append("%s%s" % (R.where.rsplit(":", 1)[0] + ":" + str(d.rline) if d.rline else R.where, ""))
-    return " / ".join(parts)
+    return "%s / %s" % (d.wloc or W.where, d.rloc or R.where)
 
 
 def report_pair(r, cmp, W, R, diffs, counted):
@@ -100,6 +95,13 @@ def run_wire(chk, F, rid="C18.R4"):
     fns.update(ds.fns)
     r.anchor("Dora opcode constants reachable through the `opc` alias", any(ds.consts.get(s) for s in ds.consts))
 
+    for p in sorted(rs.hir):
+        if p.startswith(RS.WRITER_TY + "::") or p.startswith(RS.READER_TY + "::"):
+            rs.method(p)
+    for (cls, name) in sorted(ds.methods_src):
+        ds.method(cls, name)
+    fns.update(rs.fns)
+    fns.update(ds.fns)
     # primitives: derived widths must exist on all four ends
     prims = {"rust": {k: v for k, v in rs.methods.items() if v[0] == "prim"},
              "dora": {k: v for k, v in ds.methods.items() if v[0] == "prim"}}
@@ -108,6 +110,8 @@ def run_wire(chk, F, rid="C18.R4"):
     r.observe("derived primitives: Rust %s; Dora %s" % (
         ", ".join("%s=%d" % (k.split("::")[-1], v[1]) for k, v in sorted(prims["rust"].items())),
         ", ".join("%s=%d" % (k[1], v[1]) for k, v in sorted(prims["dora"].items()))))
+
+    _byte_order(r, rs, ds)
 
     stems = {}
     for k, f in fns.items():
@@ -160,8 +164,35 @@ def run_wire(chk, F, rid="C18.R4"):
         r.observe("pkgs/boots/bytecode/deserializer.dora: %d methods are `unimplemented()` stubs (no codec to compare)"
                   % len(unimpl))
     r.floor("codec pairs matched by name stem", n_stem, 28)
-    r.floor("codec pairs fully analysed (stem, induced and root messages)", len(counted), 40)
-    r.floor("root messages (natives / entry points) compared", n_root, 0)
+    r.floor("codec pairs fully analysed (stem, induced and root messages)", len(counted), 56)
+    r.floor("root messages (natives / entry points) compared", n_root, 20)
+
+
+def _byte_order(r, rs, ds):
+    from rules import c18_wire_endian as EN
+    raw = EN.byte_orders(rs, ds)
+    wrappers = {k: v for k, v in raw.items() if isinstance(v, tuple)}
+    for k, v in sorted(wrappers.items()):
+        r.observe("%s forwards to %s (byte order %s)" % (k, v[1], v[2]))
+    orders = {k: v for k, v in raw.items() if not isinstance(v, tuple)}
+    known = {k: v for k, v in orders.items() if v in ("LE", "BE")}
+    votes = {}
+    for v in known.values():
+        votes[v] = votes.get(v, 0) + 1
+    major = max(votes, key=lambda k: votes[k]) if votes else None
+    for k, v in sorted(orders.items()):
+        key = "byte-order:%s" % k.replace(" ", ":")
+        r.instance(key, nontrivial=v is not None, sample={"primitive": k, "order": v})
+        if v == "mixed":
+            r.violation(key, "the multi-byte primitive %s assembles its bytes in neither little- nor big-endian order"
+                        % k)
+        elif v is None:
+            r.observe("byte order of %s could not be derived from its body" % k)
+        elif v != major:
+            r.violation(key, "%s is %s-endian but the other stream primitives are %s-endian (%s)"
+                        % (k, v, major, ", ".join("%s=%s" % kv for kv in sorted(known.items()))))
+    r.floor("multi-byte primitives with a derived byte order", len(known), 7)
+    r.observe("derived byte orders: " + ", ".join("%s=%s" % kv for kv in sorted(orders.items())))
 
 
 def _unimplemented(D):
